@@ -307,6 +307,11 @@ freedoms! {
     HexOdd => "freedom.hex.odd", HexDigitUpper => "freedom.hex.digit=upper", HexDigitLower => "freedom.hex.digit=lower",
     StreamEolLf => "freedom.stream.eol=LF", StreamEolCrLf => "freedom.stream.eol=CRLF", StreamCommentBeforeKeyword => "freedom.stream.comment-before-keyword",
     Adjacent => "freedom.adjacent",
+    // freedoms that proved fragile in other readers (counted only; the bytes rendered do not depend on them)
+    CommentGlued => "freedom.comment.glued", CommentConsecutive => "freedom.comment.consecutive", CommentAdjacent => "freedom.comment.adjacent",
+    NameMultiHash => "freedom.name.multi-hash", NameHash1 => "freedom.name.hash-count=1", NameHash2 => "freedom.name.hash-count=2", NameHash3 => "freedom.name.hash-count=3+",
+    ParenDepth1 => "freedom.lit.paren-depth=1", ParenDepth2 => "freedom.lit.paren-depth=2", ParenDepth3 => "freedom.lit.paren-depth=3+",
+    OctalBefore89 => "freedom.lit.octal.before-8-9", OctalBeforeOctal => "freedom.lit.octal.before-octal-digit",
 }
 
 #[derive(Clone, Debug)]
@@ -462,8 +467,18 @@ pub fn gap_ex(must: bool, between_tokens: bool, t: &mut Tape) -> (Vec<u8>, bool)
     let k = t.draw(4);
     let mut g = vec![];
     let mut comment = false;
+    let mut prev_piece_comment = false;
     for _ in 0..k {
         let (p, c) = gap_piece(t);
+        if c && comment {
+            // a second comment in the same gap: only white-space pieces (or nothing) can stand between the two
+            t.f(F::CommentConsecutive);
+            if prev_piece_comment {
+                // `%a<EOL>%b`: no byte between the end of line and the next `%`
+                t.f(F::CommentAdjacent);
+            }
+        }
+        prev_piece_comment = c;
         comment |= c;
         g.extend(p);
     }
@@ -484,6 +499,14 @@ pub fn gap_ex(must: bool, between_tokens: bool, t: &mut Tape) -> (Vec<u8>, bool)
         }
     }
     (g, comment)
+}
+
+/// statistics: the gap `g` written directly behind the token text `prev` begins with `%` and `prev` ends in a
+/// regular character (`12%c`): the comment is the only thing that ends the token
+pub fn note_glued(prev: &[u8], g: &[u8], t: &mut Tape) {
+    if g.first() == Some(&37) && prev.last().map(|&b| is_regular(b)).unwrap_or(false) {
+        t.f(F::CommentGlued);
+    }
 }
 
 /// does a token start `s` (neither white-space nor a comment nor the end of the input)?
@@ -623,6 +646,7 @@ fn join_rev(mut pieces: Vec<Vec<u8>>) -> Vec<u8> {
 
 pub fn name_body(s: &[u8], t: &mut Tape) -> Vec<u8> {
     let mut pieces = vec![];
+    let mut hashes = 0u32;
     for &b in s.iter().rev() {
         let c = t.draw(4);
         if name_verbatim(b) && c != 3 {
@@ -635,7 +659,14 @@ pub fn name_body(s: &[u8], t: &mut Tape) -> Vec<u8> {
                 if d.is_ascii_uppercase() { t.f(F::NameHexUpper); } else if d.is_ascii_lowercase() { t.f(F::NameHexLower); }
             }
             pieces.push(vec![35, h[0], h[1]]);
+            hashes += 1;
         }
+    }
+    if hashes >= 1 {
+        t.f(match hashes { 1 => F::NameHash1, 2 => F::NameHash2, _ => F::NameHash3 });
+    }
+    if hashes >= 2 {
+        t.f(F::NameMultiHash);
     }
     join_rev(pieces)
 }
@@ -765,6 +796,14 @@ pub fn str_piece(b: u8, raw_paren: bool, next: Option<u8>, t: &mut Tape) -> Vec<
         if o.len() == 4 && need.max(d as u32 + 1) < 3 {
             t.f(F::OctalForced3);
         }
+        if o.len() < 4 && matches!(next, Some(56) | Some(57)) {
+            // `\18`: one or two octal digits directly before the digit 8 or 9
+            t.f(F::OctalBefore89);
+        }
+        if need < 3 && next.map(is_octal).unwrap_or(false) {
+            // a value below 64 before a byte 0-7: only the three-digit spelling denotes it
+            t.f(F::OctalBeforeOctal);
+        }
         if paren { t.f(F::ParenOctal); }
         if b == 10 { t.f(F::EolAsEscape); }
         o
@@ -873,6 +912,15 @@ pub fn lit_str_tok(s: &[u8], t: &mut Tape) -> Vec<u8> {
     let rp = t.draw(2);
     let cand = if rp == 1 { match_parens(s) } else { vec![] };
     let raws = if raw_ok_from(0, s, &cand) { cand } else { vec![] };
+    let (mut depth, mut max_depth) = (0u32, 0u32);
+    for (i, &b) in s.iter().enumerate() {
+        if raws.get(i).copied().unwrap_or(false) {
+            if b == 40 { depth += 1; max_depth = max_depth.max(depth); } else { depth = depth.saturating_sub(1); }
+        }
+    }
+    if max_depth >= 1 {
+        t.f(match max_depth { 1 => F::ParenDepth1, 2 => F::ParenDepth2, _ => F::ParenDepth3 });
+    }
     let mut out = vec![40];
     out.extend(lit_body(s, &raws, t));
     out
@@ -916,6 +964,8 @@ pub fn render(v: &Val, t: &mut Tape) -> Vec<u8> {
             let g2 = gap(true, t);
             if z1 > 0 { t.f(F::RefLeadingZeros); }
             if z2 > 0 { t.f(F::RefLeadingZeros); }
+            note_glued(&a, &g1, t);
+            note_glued(&b, &g2, t);
             let mut out = a;
             out.extend(g1);
             out.extend(b);
@@ -964,6 +1014,7 @@ pub fn render_elems(xs: &[Val], t: &mut Tape) -> Vec<u8> {
     for x in xs.iter().rev() {
         let g = gap(needs_bnd(x) && starts_regular(&r), t);
         let tx = render(x, t);
+        note_glued(&tx, &g, t);
         r = cat3(tx, g, r);
     }
     r
@@ -977,6 +1028,8 @@ pub fn render_entries(kvs: &[(Vec<u8>, Val)], t: &mut Tape) -> Vec<u8> {
         let tv = render(v, t);
         let g1 = gap(starts_regular(&tv), t);
         let tk = name_tok(k, t);
+        note_glued(&tv, &g2, t);
+        note_glued(&tk, &g1, t);
         let mut out = tk;
         out.extend(g1);
         out.extend(tv);
@@ -991,6 +1044,7 @@ pub fn render_entries(kvs: &[(Vec<u8>, Val)], t: &mut Tape) -> Vec<u8> {
 pub fn render_with_tail(v: &Val, tail: &[u8], t: &mut Tape) -> (Vec<u8>, usize) {
     let (g, _) = gap_ex(needs_bnd(v) && starts_regular(tail), starts_token(tail), t);
     let tv = render(v, t);
+    note_glued(&tv, &g, t);
     let end = tv.len();
     (cat3(tv, g, tail.to_vec()), end)
 }
@@ -1014,6 +1068,11 @@ pub fn render_indirect(id: u64, gen: u64, v: &Val, tail: &[u8], t: &mut Tape) ->
     let b = nat_tok(gen, t);
     let g1 = gap(true, t);
     let a = nat_tok(id, t);
+    note_glued(b"endobj", &g5, t);
+    note_glued(&tv, &g4, t);
+    note_glued(b"obj", &g3, t);
+    note_glued(&b, &g2, t);
+    note_glued(&a, &g1, t);
     let mut out = a;
     out.extend(g1);
     out.extend(b);
@@ -1039,6 +1098,7 @@ pub fn render_seq(vs: &[Val], tail: &[u8], t: &mut Tape) -> (Vec<u8>, Vec<(usize
     for x in vs.iter().rev() {
         let (g, _) = gap_ex(needs_bnd(x) && starts_regular(&r), starts_token(&r), t);
         let tx = render(x, t);
+        note_glued(&tx, &g, t);
         lens.push((tx.len(), g.len()));
         r = cat3(tx, g, r);
     }
